@@ -1,8 +1,9 @@
 import Scion.Model.Spao
 import Scion.Proofs.Wire
+import Scion.Proofs.WireExt
 /-! Helper lemmas for C21 (SPAO authenticated data). -/
 namespace Scion.Spao
-open Scion.Util Scion.Wire Scion
+open Scion.Util Scion.Wire Scion.WireExt Scion
 
 theorem ofNat_inj_mod {x y : Nat} (h : UInt8.ofNat x = UInt8.ofNat y) : x % 256 = y % 256 := by
   have := congrArg UInt8.toNat h
@@ -363,5 +364,39 @@ theorem zeroPath_epic (ts ctr : Nat) (p l : Bytes) (m : PathMeta.Hdr) (body : By
       (zeroRaw m body).map fun z => natBE 4 ts ++ natBE 4 ctr ++ p ++ l ++ z := by
   simp only [zeroPath, hp, hl]
   cases zeroRaw m body <;> simp
+
+/-! ### extension headers and the upper layer -/
+
+/-- an extension header of protocol class `cls` wrapped around an upper layer -/
+theorem upperLayer_wrap_e2e (nh el : Nat) (body l4 : Bytes) (h1 : nh < 256) (h2 : el < 256)
+    (hl : body.length + 2 = (el + 1) * 4) (hn : nh ≠ 200 ∧ nh ≠ 201) :
+    upperLayer 201 (UInt8.ofNat nh :: UInt8.ofNat el :: (body ++ l4)) = some (nh, l4) := by
+  unfold upperLayer
+  rw [if_neg (by decide), if_pos rfl, decExtBase_enc nh el body l4 h1 h2 hl]
+  simp only
+  rw [if_neg (by omega)]
+
+theorem upperLayer_wrap_hbh (nh el : Nat) (body l4 : Bytes) (h1 : nh < 256) (h2 : el < 256)
+    (hl : body.length + 2 = (el + 1) * 4) (hn : nh ≠ 200 ∧ nh ≠ 201) :
+    upperLayer 200 (UInt8.ofNat nh :: UInt8.ofNat el :: (body ++ l4)) = some (nh, l4) := by
+  unfold upperLayer
+  rw [if_pos rfl, decExtBase_enc nh el body l4 h1 h2 hl]
+  simp only
+  rw [if_neg (by omega), if_neg (by omega)]
+
+theorem upperLayer_plain (nh : Nat) (l4 : Bytes) (hn : nh ≠ 200 ∧ nh ≠ 201) :
+    upperLayer nh l4 = some (nh, l4) := by
+  unfold upperLayer
+  rw [if_neg (by omega), if_neg (by omega)]
+
+/-- the header with another `NextHdr`/`PayloadLen` (what inserting an extension header changes) -/
+def withNext (h : Hdr) (nh pl : Nat) : Hdr :=
+  { h with cmn := ⟨h.cmn.version, h.cmn.tc, h.cmn.flowID, nh, h.cmn.hdrLen, pl, h.cmn.pathType,
+                   h.cmn.dstType, h.cmn.srcType⟩ }
+
+theorem macInput_withNext (h : Hdr) (nh pl spi alg ts t : Nat) (l4 : Bytes) :
+    macInput ⟨withNext h nh pl, spi, alg, ts, t, l4⟩ = macInput ⟨h, spi, alg, ts, t, l4⟩ := by
+  unfold macInput authData fixedPart addrPart addrHdrLen withNext
+  rfl
 
 end Scion.Spao
